@@ -234,6 +234,21 @@ CHECKS = {
              "only. F16 repaired by a fix: commit.",
         technique="Coq proof (ownership invariant + induction over operation lists) + history-based differential oracle with shrinking + vm_compute correspondence",
         design="6 C07"),
+    "C17": dict(
+        text="Theorems (Coq, any sequence of schemas, every tape): gen_world_independent_partial (for schemas without an "
+             "unfixed uuid4/datetime/date and without a negated class in any pattern, the generated values and the "
+             "remaining tape are the same in ANY two worlds - entropy, clock, set-iteration order), "
+             "gen_same_process_reproducible (negated classes allowed when the set order is the same); the property's "
+             "unrestricted claim is stated and REFUTED for the faithful model (gen_world_independent_refuted: [^a], "
+             "known finding F18). Partial: that the tape is a function of the seed (random.seed, MT19937) and that "
+             "hash randomisation only permutes set iteration are assumptions, observed not modelled. Tie: each "
+             "sequence generated after set_seed(k) twice in each of 4 (thorough 16) fresh interpreters with different "
+             "PYTHONHASHSEED, all outputs identical; the in-process run with the real RNG recorded as a tape is "
+             "replayed by the model.",
+        note=COMMON_NOTE + "F18 is an open known finding: the repair (order-preserving filter) cannot be made without "
+             "editing four existing tests that pin the hash-ordered string.",
+        technique="Coq proof (pointwise equality of tape computations across worlds, nested induction) + refutation witness + multi-interpreter differential oracle + recorded-tape correspondence",
+        design="6 C17"),
 }
 
 
